@@ -115,6 +115,15 @@ def strategy(tier="quick"):
                             modes=("sync", "sync", "fut", "coro"))
 
 
+def batching_focus(tier="quick"):
+    """one batching / combining node right below the entries, long runs of colliding elements,
+    and about every second emission without metadata (member order vs. metadata order needs an
+    unlabelled member between labelled ones)"""
+    return mdcommon.md_case(tier, faults=False, first=sorted(MULTI), max_nodes=2, max_actions=30,
+                            modes=("sync", "sync", "fut"), md_values=(0, 0, 1, 1, 2),
+                            min_actions=8)
+
+
 @st.composite
 def feedback_case(draw, tier="quick"):
     spec = draw(specs.pipeline_spec(kinds=specs.SYNC_KINDS, max_nodes=8,
@@ -185,4 +194,5 @@ def execute_feedback(case):
 
 
 PARTS = [Part("schedules", strategy, execute, quick=1600, thorough=8000),
+         Part("batching-focus", batching_focus, execute, quick=800, thorough=6000),
          Part("sync-with-feedback", feedback_case, execute_feedback, quick=800, thorough=6000)]
